@@ -256,3 +256,98 @@ pub proof fn lemma_history<Res>(steps: Seq<Step<Res>>)
         assert forall|id: u64| #[trigger] balance(hist0::<Res>(), id) by {}
     }
 }
+
+// ---- the shutdown of the dispatch as history steps (C09, C11, and "at most one delivery per call" across a shutdown) ----
+// `complete_all_requests` is proved (from its real body, rule R17) to satisfy `delivered_all`: the log grows by exactly one
+// delivery per tracked entry, to that entry's channel, in drain order. The lemma below shows that this transition *is* a
+// sequence of `Expire`-shaped steps -- a present entry is removed and its call receives a value the dispatch made itself
+// (provenance "not a response") -- so the invariants of `lemma_history` carry across a shutdown, and afterwards nothing is
+// tracked.
+pub open spec fn fail_steps<Res>(order: Seq<u64>, l0: Seq<Effect<Res>>, l1: Seq<Effect<Res>>) -> Seq<Step<Res>> {
+    Seq::new(order.len(), |i: int| Step::Expire { id: order[i], value: l1[l0.len() + i]->value })
+}
+pub open spec fn run_from<Res>(h: Hist<Res>, steps: Seq<Step<Res>>) -> Hist<Res>
+    decreases steps.len()
+{
+    if steps.len() == 0 { h } else { apply(run_from(h, steps.drop_last()), steps.last()) }
+}
+pub proof fn lemma_complete_all_is_steps<Res, F: Fn() -> Res>(h: Hist<Res>, l1: Seq<Effect<Res>>, order: Seq<u64>, f: F, k: int)
+    requires inv(h), binv(h), delivered_all(h.view, h.log, l1, order, f), 0 <= k <= order.len()
+    ensures ({
+        let hk = run_from(h, fail_steps(order, h.log, l1).take(k));
+        &&& inv(hk) && binv(hk)
+        &&& hk.log == l1.take(h.log.len() + k)
+        &&& forall|id: u64| #[trigger] hk.view.contains_key(id) <==> (h.view.contains_key(id) && !order.take(k).contains(id))
+        &&& forall|id: u64| #[trigger] hk.view.contains_key(id) ==> hk.view[id] == h.view[id]
+    })
+    decreases k
+{
+    let steps = fail_steps(order, h.log, l1);
+    if k == 0 {
+        assert(steps.take(0).len() == 0);
+        assert(l1.take(h.log.len() as int) =~= h.log);
+        assert(order.take(0).len() == 0);
+    } else {
+        lemma_complete_all_is_steps(h, l1, order, f, k - 1);
+        let pre = order.take(k - 1);
+        let cur = order.take(k);
+        let hp = run_from(h, steps.take(k - 1));
+        let s = steps[k - 1];
+        let id = order[k - 1];
+        assert(steps.take(k).drop_last() =~= steps.take(k - 1));
+        assert(steps.take(k).last() == s);
+        assert(run_from(h, steps.take(k)) == apply(hp, s));
+        // the entry is still there: it was tracked at the start and has not been drained yet (ids in `order` are distinct)
+        assert(h.view.contains_key(id));
+        assert(!pre.contains(id)) by {
+            if pre.contains(id) {
+                let j = choose|j: int| 0 <= j < pre.len() && #[trigger] pre[j] == id;
+                assert(order[j] == order[k - 1]);
+            }
+        }
+        assert(hp.view.contains_key(id));
+        assert(admissible(hp, s));
+        lemma_apply_preserves_inv(hp, s);
+        lemma_apply_preserves_balance(hp, s);
+        let hk = apply(hp, s);
+        let at = h.log.len() + (k - 1);
+        assert(l1[at] == Effect::Deliver { chan: h.view[id].chan, value: l1[at]->value });
+        assert(hk.log =~= l1.take(h.log.len() + k)) by {
+            assert(l1.take(h.log.len() + k) =~= l1.take(at).push(l1[at]));
+        }
+        assert(cur =~= pre.push(id));
+        assert forall|x: u64| #[trigger] hk.view.contains_key(x) <==> (h.view.contains_key(x) && !cur.contains(x)) by {
+            if x == id {
+                assert(cur[k - 1] == id);
+            } else if cur.contains(x) {
+                let j = choose|j: int| 0 <= j < cur.len() && #[trigger] cur[j] == x;
+                assert(pre[j] == x);
+            } else if pre.contains(x) {
+                let j = choose|j: int| 0 <= j < pre.len() && #[trigger] pre[j] == x;
+                assert(cur[j] == x);
+            }
+        }
+    }
+}
+/// C09 / C11 / C01 across a shutdown: after `complete_all_requests` the history invariants still hold, the log is the one the
+/// function produced, and nothing is tracked.
+pub proof fn lemma_shutdown<Res, F: Fn() -> Res>(h: Hist<Res>, l1: Seq<Effect<Res>>, order: Seq<u64>, f: F)
+    requires inv(h), binv(h), delivered_all(h.view, h.log, l1, order, f)
+    ensures ({
+        let h2 = run_from(h, fail_steps(order, h.log, l1));
+        inv(h2) && binv(h2) && h2.log == l1 && h2.view =~= Map::<u64, CEntry>::empty()
+    })
+{
+    let steps = fail_steps(order, h.log, l1);
+    lemma_complete_all_is_steps(h, l1, order, f, order.len() as int);
+    assert(steps.take(order.len() as int) =~= steps);
+    assert(l1.take((h.log.len() + order.len()) as int) =~= l1);
+    let h2 = run_from(h, steps);
+    assert forall|x: u64| !h2.view.contains_key(x) by {
+        if h.view.contains_key(x) {
+            let i = choose|i: int| 0 <= i < order.len() && #[trigger] order[i] == x;
+            let all = order.take(order.len() as int);
+            assert(all[i] == x);
+        }
+    }
+}
